@@ -7,7 +7,7 @@
     [Inv] = [InvS] /\ [InvD]. *)
 From Coq Require Import Ascii String List Bool PArith NArith ZArith QArith FMapPositive Permutation.
 From PTBase Require Import Exn PyStr.
-From P Require Import Assoc GeoState GeoEdit GeoEdit2 GeoStep Inv InvNames InvSimple Sets InvCol InvConn InvDel InvRefresh InvRename InvCompound InvSplit InvSplit2 InvSnap InvDecomp InvRefine Reach Witness.
+From P Require Import Assoc GeoState GeoEdit GeoEdit2 GeoStep Inv InvNames InvSimple Sets InvCol InvConn InvDel InvRefresh InvRename InvCompound InvSplit InvSplit2 InvSnap InvDecomp InvRefine InvCheck Reach Witness.
 Import ListNotations.
 Open Scope list_scope.
 
@@ -216,6 +216,31 @@ Theorem reduce_object_graph_partial : forall g names hm hbad g', InvS g ->
 Proof. exact reduce_invS. Qed.
 Print Assumptions reduce_object_graph_partial.
 
+(** ** check(fix) and reduce on a conforming mesh ([shares_side]: two columns with two or more common nodes have two
+    consecutive common nodes): the connections that are added then join two different columns sharing a side -- derived from
+    the start mesh, no hypothesis on intermediate states *)
+Theorem missing_connections_join_columns_sharing_a_side : forall g hl, InvS g -> shares_side g ->
+  is_ordering_of hl (missing_pairs g) = true -> conns_ok g hl.
+Proof. exact missing_conns_ok. Qed.
+Print Assumptions missing_connections_join_columns_sharing_a_side.
+Theorem check_fix_keeps_object_graph : forall g hm hbad g', InvS g -> shares_side g -> check_fix g hm hbad = Ok g' -> InvS g'.
+Proof. exact check_fix_invS_conforming. Qed.
+Print Assumptions check_fix_keeps_object_graph.
+Theorem reduce_keeps_object_graph : forall g names hm hbad g', InvS g -> shares_side g -> reduce g names hm hbad = Ok g' -> InvS g'.
+Proof. exact reduce_invS_conforming. Qed.
+Print Assumptions reduce_keeps_object_graph.
+(** the whole invariant while no layer needs fixing: reduce (repaired source aa68858; it sets up the name lists itself);
+    check(fix) with the connection name index set up again (proposed_fixes/C10-check-fix-name-index.diff, flag fx_check) --
+    without it the connection name list goes stale: check_fix_breaks_inv *)
+Theorem reduce_preserves : forall g names hm hbad g', Inv g -> fx_nbr (fx g) = true -> shares_side g -> layers_fine g ->
+  reduce g names hm hbad = Ok g' -> Inv g'.
+Proof. exact reduce_inv. Qed.
+Print Assumptions reduce_preserves.
+Theorem check_fix_repaired_preserves : forall g hm hbad g', Inv g -> fx_nbr (fx g) = true -> fx_check (fx g) = true ->
+  shares_side g -> layers_fine g -> check_fix g hm hbad = Ok g' -> Inv g'.
+Proof. exact check_fix_inv. Qed.
+Print Assumptions check_fix_repaired_preserves.
+
 (** reduce keeps the WHOLE invariant when the remaining columns still form a valid mesh (nothing missing -- checked by the
     empty hint --, no extra connection, layers containing their centres) *)
 Theorem reduce_valid_mesh_preserves : forall g names hbad g', Inv g -> reduce g names [] hbad = Ok g' ->
@@ -270,6 +295,14 @@ Theorem delete_layer_breaks_inv :
 Proof. exact delete_layer_refuted. Qed.
 Print Assumptions delete_layer_breaks_inv.
 
+(** check(fix = True) and triangulate_column: two more members of the family "derived data is not refreshed" *)
+Theorem check_fix_breaks_inv : exists g hm hbad g', Inv g /\ check_fix g hm hbad = Ok g' /\ ~ S6 g'.
+Proof. exact check_fix_refuted. Qed.
+Print Assumptions check_fix_breaks_inv.
+Theorem triangulate_column_breaks_inv : exists g n g' names, Inv g /\ triangulate_column g n = Ok (g', names) /\ ~ S6 g'.
+Proof. exact triangulate_column_refuted. Qed.
+Print Assumptions triangulate_column_breaks_inv.
+
 (** [split_pre] cannot be dropped either: in the repaired source too, a quadrilateral with a neighbour that shares three of
     its corners (an overlapping column, outside the meshes the property ranges over) is split into halves one of which
     carries a connection whose two nodes are not both its own *)
@@ -300,3 +333,14 @@ Theorem example_refine_keeps_inv_and_leaves_no_orphan :
   Inv g_refined /\ forall a, In a (nlist g_refined) -> ~ In a (nlist g_two) -> exists c', In c' (clist g_refined) /\ In a (cns g_refined c').
 Proof. exact refine_example. Qed.
 Print Assumptions example_refine_keeps_inv_and_leaves_no_orphan.
+(** decompose_columns / refine with the hypothesis on the added connections stated as conformity ([shares_side]) of the mesh
+    in which they are added (after the columns were replaced) -- hint-independent; deriving it from conformity of the START
+    mesh needs the tiling argument of C11 and is not done here *)
+Theorem decompose_columns_conforming_preserves : forall g names hs hmiss g', Inv g -> fx_nbr (fx g) = true ->
+  (forall g1, decompose_each g names hs = Ok g1 -> shares_side g1) -> decompose_columns g names hs hmiss = Ok g' -> Inv g'.
+Proof. exact decompose_columns_inv_conforming. Qed.
+Print Assumptions decompose_columns_conforming_preserves.
+Theorem refine_conforming_preserves : forall g names h g', Inv g ->
+  (forall g4, refine_prefix g names h = Ok (Some g4) -> shares_side g4) -> refine g names h = Ok g' -> Inv g'.
+Proof. exact refine_inv_conforming. Qed.
+Print Assumptions refine_conforming_preserves.
